@@ -144,7 +144,31 @@ func checkExtractor(c *runner.Ctx, errStr, expected, sig string, det map[string]
 		det["expected_extract"] = expected
 		c.Violation("extractor/"+sig, det)
 	}
+	// the returned string is the caller's: the next extractor call (on a message at least as long) leaves it alone
+	if was := strings.Clone(got); got != "" {
+		valid.GetOnlyExplainErr("\"o.f\" input \"\", explain: " + strings.Repeat("#", len(got)+2))
+		if got != was {
+			c.Violation("extractor/result-changed-by-the-next-call", map[string]interface{}{"message": errStr, "result_when_returned": was, "result_after_the_next_call": got})
+			return
+		}
+	}
+	// what the three preceding extractor calls returned still reads as it did when it was returned
+	for _, k := range keptExtracts {
+		if k.live != k.copy {
+			c.Violation("extractor/earlier-result-changed-by-a-later-call", map[string]interface{}{"earlier_message": k.from, "earlier_result_when_returned": k.copy, "earlier_result_now": k.live, "later_message": errStr})
+			keptExtracts = nil
+			break
+		}
+	}
+	keptExtracts = append(keptExtracts, keptExtract{got, strings.Clone(got), errStr})
+	if len(keptExtracts) > 3 {
+		keptExtracts = keptExtracts[1:]
+	}
 }
+
+type keptExtract struct{ live, copy, from string }
+
+var keptExtracts []keptExtract
 
 func run(c *runner.Ctx) {
 	base := os.Getenv("VERIF_SCRATCH")
